@@ -96,6 +96,16 @@ def mk_hist(fx, np, t, codes, shape=None, mode='inplace', **cfg):
         if common.codes_of(X) != clist:
             raise AssertionError('indexing changed the code')
         return X
+    if mode == 'empty':
+        # created EMPTY (by sizes or by dtype string: the value type of such an object is float), then loaded with the codes by a raw store
+        if (w + len(clist)) % 2:
+            X = fx.Fxp(None, bool(s), w, f, **cfg)
+        else:
+            X = fx.Fxp(None, dtype='fxp-%s%d/%d' % ('s' if s else 'u', w, f), **cfg)
+        X.set_val(arr(clist), raw=True)
+        if common.codes_of(X) != clist:
+            raise AssertionError('raw store into an empty object changed the codes')
+        return X
     if mode == 'intval-element' and scalar and f <= 0 and w < 63:
         # an ELEMENT (integer index) of an array that was built BY VALUE from Python integers: the element's value is a NumPy integer scalar
         vals = [c << (-f) for c in (other[0], clist[0], other[0])]
